@@ -528,6 +528,24 @@ func runC06(c *Ctx) {
 		q := append(append([]byte{}, body...), sha256d(body[:33])[:4]...)
 		c.Call(Event{"op": "WifDecode", "s": str(base58Ref(q))})
 	}
+	// a complete well-formed payload (identifier, key, optional 0x01 marker) with bytes in front of it, behind it, or
+	// between the key and the marker -- every one with a valid checksum over the whole: only 33 or 34 bytes are a key
+	for k := 0; k < c.Pick(4, 24); k++ {
+		id := []byte{0x80, 0xef, 0x64, 0x00}[k%4]
+		key := scalars[(3*k+1)%len(scalars)]
+		plain := append([]byte{id}, key...)
+		comp := append(append([]byte{}, plain...), 1)
+		for _, extra := range [][]byte{{0}, {1}, {0xff}, {1, 1}, {0, 1}, {1, 0}, {7, 7, 7}, randBytes(r, 5), randBytes(r, 12)} {
+			for _, b := range [][]byte{
+				append(append([]byte{}, comp...), extra...),             // marker, then more
+				append(append([]byte{}, plain...), extra...),            // no marker, then more
+				append(append([]byte{}, extra...), comp...),             // something in front
+				append(append(append([]byte{}, plain...), extra...), 1), // marker at the very end of a longer payload
+			} {
+				c.Call(Event{"op": "WifDecode", "s": str(b58WithChecksum(b))})
+			}
+		}
+	}
 	for n := 0; n <= 45; n++ {
 		for k := 0; k < 3; k++ {
 			b := randBytes(r, n)
